@@ -18,7 +18,7 @@ open Quic Quic.Recovery
 
   and the answer is
       ok                      the observed post-state is one the skeleton admits from its current
-                              state for some oracle values (`Cubic.admit` / `Bbr.admit`), resp. the
+                              state for some oracle values (`Cubic.accept` / `Bbr.accept`), resp. the
                               skeleton panics / rejects the op as well
       err not-admitted        no oracle value explains the observation
       err unexpected-panic    the implementation panicked where the skeleton cannot
@@ -149,7 +149,7 @@ def cubicLine (s : Cubic.State) (p : Parsed) (seen : Seen) : Ctl × String :=
   | .panic =>
     if pres.any (fun s? => match s? with
         | Option.none => true
-        | some s1 => Cubic.admitPanic s1 p.cubic) then (.none, "ok")
+        | some s1 => Cubic.acceptPanic s1 p.cubic) then (.none, "ok")
     else (.none, "err unexpected-panic")
   | .obs cwnd inflight limited fastRtx st =>
     match cubicTag? st with
@@ -158,13 +158,13 @@ def cubicLine (s : Cubic.State) (p : Parsed) (seen : Seen) : Ctl × String :=
       let obs : Cubic.Obs := { cwnd := cwnd, inflight := inflight, limited := limited, fastRtx := fastRtx, phase := tag }
       let hit := pres.findSome? fun s? => match s? with
         | Option.none => Option.none
-        | some s1 => (Cubic.admit s1 p.cubic obs).map (·.2)
+        | some s1 => (Cubic.accept s1 p.cubic obs).map (·.2)
       match hit with
       | some s' => (.cubic s', "ok")
       | Option.none =>
         let allPanic := pres.all fun s? => match s? with
           | Option.none => true
-          | some s1 => Cubic.admitPanic s1 p.cubic
+          | some s1 => Cubic.acceptPanic s1 p.cubic
         (.cubic (cubicResync s p cwnd inflight fastRtx tag), if allPanic then "err missing-panic" else "err not-admitted")
 
 /-! ### BBR -/
@@ -180,15 +180,15 @@ def bbrResync (s : Bbr.State) (p : Parsed) (cwnd inflight : Nat) (fastRtx probeR
 def bbrLine (s : Bbr.State) (p : Parsed) (seen : Seen) : Ctl × String :=
   match seen with
   | .badOp => (.bbr s, "err bad-op-mismatch")
-  | .panic => if Bbr.admitPanic s p.bbr then (.none, "ok") else (.none, "err unexpected-panic")
+  | .panic => if Bbr.acceptPanic s p.bbr then (.none, "ok") else (.none, "err unexpected-panic")
   | .obs cwnd inflight limited fastRtx st =>
     if !bbrToken st then (.bbr s, "err not-admitted") else
     let obs : Bbr.Obs := { cwnd := cwnd, inflight := inflight, limited := limited, fastRtx := fastRtx, probeRtt := st == "probe_rtt" }
-    match Bbr.admit s p.bbr obs with
+    match Bbr.accept s p.bbr obs with
     | some (_, s') => (.bbr s', "ok")
     | Option.none =>
       (.bbr (bbrResync s p cwnd inflight fastRtx (st == "probe_rtt")),
-        if (Bbr.step s p.bbr {}).isNone then "err missing-panic" else "err not-admitted")
+        if (Bbr.step Bbr.saturatingGrowth s p.bbr {}).isNone then "err missing-panic" else "err not-admitted")
 
 def newLine (kind : String) (mds : Nat) (seen : Seen) : Ctl × String :=
   if kind == "cubic" then
